@@ -141,7 +141,9 @@ def run(ctx):
     pycode.check(res, random.Random(ctx["seed"] * 7919 + 77), ctx["tier"], ["frame", "reader"])
     res.rule = ("streams: every frame kind x boundary payload sizes; single-byte corruptions at every position; "
                 "XOR-preserving paired flips; the same delta on 2-4 positions of the whole frame incl. the end delimiter; XOR-zero / stored-zero checksum corruptions; truncations at every length; "
-                "noise (uniform, delimiter-dense, header-shaped); mixed streams; each under 3 chunkings. "
+                "noise (uniform, delimiter-dense, header-shaped); mixed streams; each under 3 chunkings; sessions on ONE reader object (direct / DummyProtocol.reader) "
+                "whose calls are abandoned by READER_TIMEOUT or cancellation after the delimiter, inside the header, at every position of a body, "
+                "then further bytes and calls -- incl. continuations that would form a frame when glued to what the abandoned call took. "
                 "distinct = distinct stream bytes; non-trivial = contains a start delimiter followed by >= 6 bytes")
     cases = []
     for fn, ln in load_corpus("C01"):
@@ -180,7 +182,205 @@ def run(ctx):
     res.extra["chunkings_per_stream"] = 3
     if differing and not any(f["kind"] == "spec" for f in res.failures):
         neighbourhood(res, rng, differing)
+    from common import Parts
+    parts = Parts(res)
+    parts.run("reader object re-used after abandoned calls", run_sessions, res, random.Random(ctx["seed"] * 7919 + 101), ctx["tier"])
+    parts.finish()
+    res.failures.sort(key=lambda f: (f["kind"] != "spec", len(str(f.get("input")))))
     return res
+
+
+# ---------------------------------------------------------------------------------------------
+# one FrameReader object used again after calls that ended abnormally (READER_TIMEOUT / cancelled by the caller)
+
+
+def gen_sessions(rng, tier):
+    """yield (label, chunks): after each chunk the caller reads until a call blocks, and abandons that call"""
+    quick = tier == "quick"
+
+    def own_frame(n=None):
+        return fg.mk(rng.choice(fg.FRAME_TYPES), fg.salted_payload(rng, rng.choice([0, 1, 2, 5, 9, 30]) if n is None else n),
+                     rng.choice([86, 0]), rng.choice([69, 81, 86, 0]))
+
+    def quiet(n):
+        return bytes(rng.choice([b for b in (0x00, 0x16, 0xFF, 0x0a, rng.randrange(256)) if b != 0x68]) for _ in range(n))
+
+    # 1. random streams cut at random places, preferably right after a start delimiter, inside a header, inside a body
+    for _ in range(300 if quick else 20000):
+        parts = []
+        for _ in range(rng.randint(1, 4)):
+            r = rng.random()
+            parts.append(fg.rand_frame(rng, 24) if r < 0.6 else own_frame() if r < 0.8 else
+                         fg.runt(rng, rng.choice([7, 8, 9, 10, 11, 12])) if r < 0.9 else bytes(rng.randrange(256) for _ in range(rng.randint(1, 6))))
+        s = b"".join(parts)
+        cand = [i + 1 for i, b in enumerate(s) if b == 0x68] + [i + rng.randint(2, 7) for i, b in enumerate(s) if b == 0x68]
+        cuts = sorted({c for c in (rng.sample(cand, min(len(cand), rng.randint(1, 3))) + [rng.randrange(len(s) + 1)]) if 0 < c < len(s)})
+        chunks = [s[a:b] for a, b in zip([0] + cuts, cuts + [len(s)])]
+        yield "session:random", chunks
+    # 2. a frame whose arrival stalls at EVERY position; the rest arrives after the call was abandoned, then further frames
+    for _ in range(12 if quick else 400):
+        f = own_frame(rng.choice([0, 1, 3, 8]))
+        for k in range(1, len(f)):
+            yield "session:stalled-frame", [quiet(rng.choice([0, 0, 3])) + f[:k], f[k:] + own_frame() + (own_frame() if rng.random() < 0.5 else b"")]
+    # 3. what arrives after an abandoned call would, glued to what that call had already taken, make a well-formed frame:
+    #    a reader that carries anything over from the abandoned call delivers bytes that are not a frame.
+    #    (a) the call took the start delimiter only; (b) the call took a whole header.
+    for _ in range(60 if quick else 3000):
+        rc, sd = rng.choice([86, 0]), rng.choice([69, 81, 86, 0])
+        if rng.random() < 0.5:
+            hi = rng.choice([0, 0, 1, 2, 3])         # the glued frame starts 68 68 hi: its length field reads 0x68 + 256 * hi
+            total = 0x68 + 256 * hi
+            # ... and the glued bytes are as long as that length field says, or longer by what had been taken (a reader that
+            # counts the carried-over byte twice)
+            glued = total + rng.choice([0, 1])
+            w = bytearray([0x68, 0x68, hi, rc, sd, rng.choice([48, 0x69]), 5, rng.choice(fg.FRAME_TYPES)])
+            w += bytes(b if b != 0x68 else 0x69 for b in (rng.choice([0, 1, 0x16, 0x55, rng.randrange(256)]) for _ in range(glued - 10)))
+            w = bytes(w) + bytes([fg.xor(w), 0x16])
+            taken, later = w[:1], w[1:]
+            first = quiet(rng.choice([0, 2])) + taken + quiet(rng.choice([0, 0, 2, 5]))
+        else:
+            total = rng.randint(10, 60)
+            hdr = bytes([0x68, total, 0, rc, sd, 48, 5])
+            body = bytes([0x68]) + bytes(b if b != 0x68 else 0x69 for b in (rng.randrange(256) for _ in range(total - 3)))
+            later = body + bytes([fg.xor(hdr + body), 0x16])
+            first = quiet(rng.choice([0, 2])) + hdr + quiet(rng.randrange(0, total - 7))
+        yield "session:glue", [first, quiet(rng.choice([0, 0, 3])) + later + own_frame() + own_frame()]
+
+
+def _session(chunks, modes, via_dummy):
+    """-> canonical events: reader.read_all tuples for completed calls, ("A", taken, how) for abandoned ones"""
+    import asyncio
+    import vloop
+    from pyplumio.exceptions import ProtocolError
+    from pyplumio.stream import FrameReader
+
+    async def main():
+        sr = asyncio.StreamReader()
+        if via_dummy:
+            from pyplumio.protocol import DummyProtocol
+            proto = DummyProtocol()
+            proto.connection_established(sr, _NullWriter())
+            fr = proto.reader
+        else:
+            fr = FrameReader(sr)
+        out, fed, before = [], 0, 0
+
+        def taken():
+            nonlocal before
+            n = fed - len(sr._buffer) - before
+            before += n
+            return n
+
+        def record(t):
+            exc = t.exception()
+            if exc is None:
+                f = t.result()
+                if f is None:
+                    out.append(("I", taken()))
+                else:
+                    out.append(("D", int(f.frame_type), int(f.recipient), int(f.sender), int(f.econet_type), int(f.econet_version),
+                                hexs(f.message), taken()))
+            elif isinstance(exc, ProtocolError):
+                out.append(("E", taken()))
+            elif isinstance(exc, OSError) and not isinstance(exc, asyncio.TimeoutError):
+                out.append(("L", taken()))
+                return False
+            else:
+                out.append(("X", type(exc).__name__, taken()))
+                return False
+            return True
+
+        for ch, how in zip(chunks, modes):
+            sr.feed_data(ch)
+            fed += len(ch)
+            for _ in range(len(ch) + 3):
+                t = asyncio.ensure_future(fr.read())
+                for _ in range(10000):
+                    await asyncio.sleep(0)
+                    if t.done() or sr._waiter is not None:
+                        break
+                if t.done() and not t.cancelled():
+                    if not record(t):
+                        return out
+                    continue
+                # the call waits for bytes that do not come: it is abandoned
+                if how == "cancel":
+                    t.cancel()
+                else:
+                    await asyncio.sleep(11)          # READER_TIMEOUT is 10 s (virtual time)
+                await asyncio.gather(t, return_exceptions=True)
+                ended = "cancelled" if t.cancelled() else type(t.exception()).__name__ if t.exception() else "returned"
+                out.append(("A", taken(), ended))
+                break
+        sr.feed_eof()
+        for _ in range(fed + 3):
+            t = asyncio.ensure_future(fr.read())
+            await asyncio.gather(t, return_exceptions=True)
+            if not record(t):
+                break
+        return out
+
+    return vloop.run(main())
+
+
+class _NullWriter:
+    def write(self, b):
+        pass
+
+    async def drain(self):
+        pass
+
+    def close(self):
+        pass
+
+    async def wait_closed(self):
+        pass
+
+
+def run_sessions(res, rng, tier, cases=None):
+    cases = list(gen_sessions(rng, tier)) if cases is None else cases
+    obs = []
+    for label, chunks in cases:
+        modes = [rng.choice(["timeout", "cancel"]) for _ in chunks]
+        via = rng.random() < 0.4
+        obs.append((modes, via, _session(chunks, modes, via)))
+    answers = driver_batch("session " + "+".join(hexs(c) for c in chunks) for _, chunks in cases)
+    judge_reqs, judge_at = [], []
+    for (label, chunks), (modes, via, ev), ans in zip(cases, obs, answers):
+        s = b"".join(chunks)
+        inp = dict(session=[c.hex() for c in chunks], abandoned_by=modes, via="DummyProtocol.reader" if via else "FrameReader", label=label)
+        res.case(("session", tuple(chunks)), True)
+        res.count("label:" + label)
+        model = []
+        for part in ans.split(";"):
+            w = part.split(" ")
+            model.append(("A", int(w[1])) if w[0] == "A" else reader.canon_model(reader.parse_model(part))[0])
+        canon, pos = [], 0
+        for e in ev:
+            n = e[-2] if e[0] == "A" else e[-1]
+            if e[0] == "A":
+                canon.append(("A", e[1]))
+                res.count("abandoned:" + e[2])
+                if e[2] not in ("cancelled", "TimeoutError"):
+                    res.fail("spec", inp, "TimeoutError / CancelledError", list(e), "an abandoned read() ended with something else than its time-out / cancellation")
+            else:
+                canon.append(tuple(e))
+                res.count("outcome-after-reuse:" + e[0])
+            if e[0] == "D":
+                judge_reqs.append(f"c01judge {hexs(s[pos:pos + n])} {e[1]} {e[2]} {e[3]} {e[4]} {e[5]} {e[6]}")
+                judge_at.append((inp, e, s[pos:pos + n]))
+            if e[0] == "X":
+                res.fail("spec", inp, "frame / None / protocol error / connection lost", list(e), "read() on a re-used reader raised something else")
+            pos += n
+        if canon != model:
+            res.fail("corr", inp, [list(x) for x in model], [list(x) for x in canon],
+                     "reader session model and one FrameReader object used across abandoned calls differ")
+    for (inp, e, consumed), v in zip(judge_at, driver_batch(judge_reqs)):
+        if v != "pass":
+            res.fail("spec", inp, "no delivery, or a delivery justified by the bytes that call consumed",
+                     dict(delivered=list(e), consumed=consumed.hex(), judge=v),
+                     "a frame delivered by a reader that was used again after an abandoned (timed-out / cancelled) call is not "
+                     "justified by the bytes consumed for it (C01.spec; C01.session_delivered_only_if_well_formed)")
 
 
 def judge(res, cases, impl):
@@ -246,6 +446,22 @@ def neighbourhood(res, rng, differing, budget=6000):
 def replay(ctx):
     """re-run one recorded failing input on implementation and model"""
     f = ctx["replay"]["failure"] if "failure" in ctx["replay"] else ctx["replay"].get("first_difference")
+    if "session" in f["input"]:
+        res = Result("C01")
+        res.rule = "replay of one recorded reader session"
+        i = f["input"]
+
+        class Fixed:      # the recorded choices instead of random ones
+            def __init__(self):
+                self.modes = list(i["abandoned_by"])
+
+            def choice(self, _):
+                return self.modes.pop(0)
+
+            def random(self):
+                return 0.0 if i["via"] == "DummyProtocol.reader" else 1.0
+        run_sessions(res, Fixed(), "quick", [(i.get("label", "session"), [bytes.fromhex(c) for c in i["session"]])])
+        return res
     s = bytes.fromhex(f["input"]["stream"])
     res = Result("C01")
     res.rule = "replay of one recorded stream"
